@@ -122,7 +122,14 @@ def correspondence(ctx):
         "(layouts whose rule tokens carry leading/trailing blanks, tabs, NBSP, NEL and keywords in upper/lower/mixed case, well-formed and "
         "malformed rules; links): after each of ValidateMetablock, validateLayout/validateLink (hook), UnpackRule on every rule, VerifyArtifacts, "
         "SubstituteParameters, VerifySignature (in shuffled order) GetSignableRepresentation must return the bytes it returned before, equal to the "
-        "reference canonical form of an independently generated copy, and the signature must still verify. value level: random generic values "
+        "reference canonical form of an independently generated copy, and the signature must still verify; the same for layouts whose certificate "
+        "constraints carry lists (dns_names, emails, organizations, roots, uris) of two or more entries NOT in sorted order, one constraint matching "
+        "a generated functionary certificate and one not, under Step.CheckCertConstraints / CertificateConstraint.Check (class history-certconstraint); "
+        "strings with U+FEFF (start, middle, end, repeated, alone) and neighbours U+200B U+2060 U+00A0 U+FFFE U+FFFD U+200E U+00AD U+FEFE in names, "
+        "commands, artifact names, by-products, environment, readme, step names, rule patterns, constraints: sign + Dump + both loaders must give back the "
+        "signed bytes and a verifying signature (invisible-roundtrip), two metadata differing by one U+FEFF must still differ after Dump + Load "
+        "(invisible-pair), the same through the DSSE wrapper (invisible-dsse), and a file that starts with a byte order mark is refused by both loaders "
+        "as the unchanged repository does (invisible-bom-file, pinned behaviour). value level: random generic values "
         "through cjson.EncodeCanonical and through SetPayload of a link carrying them, and JSON texts (half of them damaged) through "
         "json.Valid+Decoder(UseNumber), against the extracted model. non-trivial = every case (no case is a constant input); distinct = distinct input JSON / input line")
     _value_level(ctx, binp, 20000 if ctx.tier == 'quick' else 600000, corr)
